@@ -16,9 +16,11 @@ import vlib
 from vlib import Infra
 
 
-def gen_purge(ctx, name, sample_num=None, exact_only=False):
+def gen_purge(ctx, name, sample_num=None, exact_only=False, late=False):
     out = os.path.join(ctx.work, name)
     d = {'"purge.ndjson"': '"%s"' % out}
+    if late:
+        d["Late = FALSE"] = "Late = TRUE"
     if sample_num:
         d["Sample = FALSE"] = "Sample = TRUE"
         g = vlib.run_tlc(ctx, "Gen_Purge.tla", "Gen_Purge.cfg", workers=1, timeout=1800, defines=d,
@@ -56,7 +58,11 @@ def run(ctx):
         cases = gen_purge(ctx, "purge.ndjson")
         shards = 16
     else:
-        cases = gen_purge(ctx, "purge.ndjson", sample_num=140)
+        cases = gen_purge(ctx, "purge.ndjson", sample_num=130)
+        # plus scenarios where an index of more than ten chunks is interrupted late and resumed (seed-dependent selection)
+        late = [l for l in open(gen_purge(ctx, "late.ndjson", late=True)).read().splitlines() if '"crash":99' not in l]
+        pick = late[ctx.seed % 7::7][:14]
+        open(cases, "a").write("\n".join(pick) + "\n")
         shards = 14
     results = [vlib.replay_sharded(ctx, "purge", cases, "purge", ["--seed", str(ctx.seed)] + (["--crc"] if ctx.seed % 2 else []),
                                    shards=shards, timeout=6000)]
